@@ -31,12 +31,13 @@ class ElementComposite(Element):
         for i, e in enumerate(self.elems):  # nodal
             for j in range(e.nodal_dofs):
                 dofnames.append(e.dofnames[j] + "^" + str(i + 1))
-        for i, e in enumerate(self.elems):  # edge
-            for j in range(e.nodal_dofs, e.nodal_dofs + e.edge_dofs):
-                dofnames.append(e.dofnames[j] + "^" + str(i + 1))
+        # same order as Dofs/DofsView read them: nodal, facet, edge, interior
         for i, e in enumerate(self.elems):  # facet
-            for j in range(e.nodal_dofs + e.edge_dofs,
-                           e.nodal_dofs + e.edge_dofs + e.facet_dofs):
+            for j in range(e.nodal_dofs, e.nodal_dofs + e.facet_dofs):
+                dofnames.append(e.dofnames[j] + "^" + str(i + 1))
+        for i, e in enumerate(self.elems):  # edge
+            for j in range(e.nodal_dofs + e.facet_dofs,
+                           e.nodal_dofs + e.facet_dofs + e.edge_dofs):
                 dofnames.append(e.dofnames[j] + "^" + str(i + 1))
         for i, e in enumerate(self.elems):  # interior
             for j in range(e.nodal_dofs + e.edge_dofs + e.facet_dofs,
